@@ -16,8 +16,10 @@ ID = "C17"
 MOD = __name__
 
 RULE_TEXT = (
-    "Exhaustive part: tree q{a{x{k}},ab,a_b{x},aa} x every alias map over subsets of its modules (each module aliased or "
-    "not, 2^9) x spacing present/absent. Random part: Hypothesis trees with prefix-colliding siblings (a few names "
+    "Exhaustive part: tree q{a{x{k}},ab,a_b{x},aa} and tree a{a{a},ab,b{a,ba}} (the root's name recurs further down) x every "
+    "alias map over subsets of their modules x spacing present/absent, plus for every alias map a second and third "
+    "visualize() call on the same architecture (same aliased modules with other texts; one alias fewer), each call judged "
+    "on its own. Random part also draws root names from the sibling pool and 1-2 further calls on the same architecture. Random part: Hypothesis trees with prefix-colliding siblings (a few names "
     "contain '+', '(' as file-system derived module names can), alias maps over random subsets incl. nested aliased "
     "modules, alias values with dots and regex metacharacters, optional spacing, extra drawing kwargs, and aliases for "
     "non-existent modules. Oracle: models.label_expected (most specific aliased ancestor-or-self by dotted components); "
@@ -54,10 +56,30 @@ def draw(ev, kwargs) -> tuple:
 
 
 def check_case(spec: dict) -> dict:
+    """One evaluable, one or more visualize() calls on it (spec['more_calls']): every call is judged on its own, so a
+    label map remembered from an earlier call shows up as a wrong label of a later one."""
     tree = spec["tree"]
+    ev = make_evaluable(tree, [tuple(e) for e in spec.get("imports", [])])
+    calls = [spec] + list(spec.get("more_calls", []))
+    viols, labels, nontrivial = [], [], False
+    for i, call in enumerate(calls):
+        r = check_call(ev, call)
+        for v in r["violations"]:
+            if i:
+                v = dict(v, sig=v["sig"] + "/on-repeated-call", detail=f"call #{i + 1} on the same architecture: " + str(v["detail"]))
+            viols.append(v)
+        labels += r["labels"]
+        nontrivial = nontrivial or r["nontrivial"]
+    if len(calls) > 1:
+        labels.append("repeated-calls")
+        if any(set(c["aliases"]) == set(calls[0]["aliases"]) and c["aliases"] != calls[0]["aliases"] for c in calls[1:]):
+            labels.append("repeated-calls-same-keys-other-values")
+    return {"violations": viols, "nontrivial": nontrivial, "labels": labels}
+
+
+def check_call(ev, spec: dict) -> dict:
     aliases = dict(spec["aliases"])
     extra = dict(spec.get("extra", {}))
-    ev = make_evaluable(tree, [tuple(e) for e in spec.get("imports", [])])
     mods = set(ev.modules)
     kwargs = dict(extra)
     kwargs["aliases"] = dict(aliases)
@@ -69,8 +91,9 @@ def check_case(spec: dict) -> dict:
     collide = any(
         any(m != a and (M.is_strict_desc(m, a) or (m.startswith(a) and not M.is_self_or_desc(m, a))) for m in mods)
         for a in aliases if a in mods)
+    recur = any(any(m != a and M.is_strict_desc(m, a) and a in m[len(a):] for m in mods) for a in aliases if a in mods)
     labels = ["unknown-alias" if unknown else "all-known", "spacing" if spec.get("spacing") is not None else "no-spacing",
-              "colliding" if collide else "plain"]
+              "colliding" if collide else "plain"] + (["aliased-name-recurs-in-descendant"] if recur else [])
     if unknown:
         if res[0] != "error" or res[1] != "KeyError" or not any(u in res[2] for u in unknown):
             viols.append({"sig": "C17/unknown-alias-not-rejected", "key": {}, "detail": f"aliases for absent modules {unknown}: {res[:3] if res[0] == 'error' else 'drawn'}"})
@@ -109,28 +132,44 @@ def check_case(spec: dict) -> dict:
 
 
 EX_TREE = ["q", "q.a", "q.a.x", "q.a.x.k", "q.ab", "q.a_b", "q.a_b.x", "q.aa", "q.b"]
+# the root's name recurs as a component and as a substring of components further down
+EX_TREE2 = ["a", "a.a", "a.a.a", "a.ab", "a.b", "a.b.a", "a.b.ba"]
 ALIAS_VALUES = ["A", "B.c", "x+y", "(z)", "$1", "al", "W", "v.w.", "[k]"]
 
 
 def exh_shard(arg, stt, deadline) -> None:
     shard, nshards = arg
-    n = len(EX_TREE)
-    for mask in range(2 ** n):
-        if mask % nshards != shard:
-            continue
-        aliases = {EX_TREE[i]: ALIAS_VALUES[i] for i in range(n) if mask >> i & 1}
-        for spacing in (None, 0.5):
-            spec = {"tree": EX_TREE, "aliases": aliases, "spacing": spacing, "extra": {"node_size": 10}}
-            stt.record(spec, check_case(spec), enumerated=True, sample=(mask % 97 == 5 and spacing is None))
+    for tree in (EX_TREE, EX_TREE2):
+        n = len(tree)
+        for mask in range(2 ** n):
+            if mask % nshards != shard:
+                continue
+            aliases = {tree[i]: ALIAS_VALUES[i] for i in range(n) if mask >> i & 1}
+            for spacing in (None, 0.5):
+                spec = {"tree": tree, "aliases": aliases, "spacing": spacing, "extra": {"node_size": 10}}
+                stt.record(spec, check_case(spec), enumerated=True, sample=(mask % 97 == 5 and spacing is None))
+            # the same architecture drawn a second time with other alias texts for the same modules, and a third time
+            # with one alias fewer
+            if aliases:
+                again = {k: v[::-1] + "2" for k, v in aliases.items()}
+                fewer = dict(list(aliases.items())[1:])
+                spec = {"tree": tree, "aliases": aliases, "spacing": None, "extra": {},
+                        "more_calls": [{"aliases": again, "spacing": None, "extra": {}}, {"aliases": fewer, "spacing": None, "extra": {}}]}
+                stt.record(spec, check_case(spec), enumerated=True, sample=(mask % 197 == 7))
+
+
+@st.composite
+def alias_maps(draw, tree):
+    keys = draw(st.lists(st.sampled_from(tree), min_size=1, max_size=5, unique=True))
+    vals = draw(st.lists(st.sampled_from(ALIAS_VALUES + ["", "q", "a"]), min_size=len(keys), max_size=len(keys)))
+    return dict(zip(keys, vals))
 
 
 @st.composite
 def cases(draw):
     sib = RS.SIBLINGS + (["a+b", "a(1)"] if draw(st.integers(0, 4)) == 0 else [])
-    tree = draw(RS.trees(root="q", max_modules=12, siblings=sib))
-    keys = draw(st.lists(st.sampled_from(tree), min_size=1, max_size=5, unique=True))
-    vals = draw(st.lists(st.sampled_from(ALIAS_VALUES + ["", "q", "a"]), min_size=len(keys), max_size=len(keys)))
-    aliases = dict(zip(keys, vals))
+    tree = draw(RS.trees(root=draw(st.sampled_from(["q", "q", "a", "ab", "x"])), max_modules=12, siblings=sib))
+    aliases = draw(alias_maps(tree))
     if draw(st.integers(0, 5)) == 0:
         base = draw(st.sampled_from(tree))
         aliases[draw(st.sampled_from([base + "x", base + ".nope", base[:-1] or "zz", "zz.y"]))] = "U"
@@ -141,7 +180,18 @@ def cases(draw):
             extra[k] = v
     spacing = draw(st.sampled_from([None, None, 0.3, 1.0]))
     imports = draw(RS.import_relation(tree, max_edges=5))
-    return {"tree": tree, "aliases": aliases, "spacing": spacing, "extra": extra, "imports": [list(e) for e in imports]}
+    spec = {"tree": tree, "aliases": aliases, "spacing": spacing, "extra": extra, "imports": [list(e) for e in imports]}
+    if draw(st.integers(0, 2)) == 0:
+        more = []
+        for _ in range(draw(st.integers(1, 2))):
+            if draw(st.booleans()):  # same aliased modules, other texts
+                vals = draw(st.lists(st.sampled_from(ALIAS_VALUES), min_size=len(aliases), max_size=len(aliases)))
+                again = dict(zip(aliases, vals))
+            else:
+                again = draw(alias_maps(tree))
+            more.append({"aliases": again, "spacing": draw(st.sampled_from([None, 0.3])), "extra": {}})
+        spec["more_calls"] = more
+    return spec
 
 
 def strategy(tier):
@@ -151,5 +201,5 @@ def strategy(tier):
 def run(ctx) -> None:
     nsh = 32
     ctx.exhaustive("all-alias-subsets", MOD, "exh_shard", [(i, nsh) for i in range(nsh)],
-                   f"tree {EX_TREE}: all 2^{len(EX_TREE)} alias maps x spacing present/absent")
+                   f"trees {EX_TREE} and {EX_TREE2}: all alias maps x spacing present/absent, + repeated calls on one architecture")
     ctx.random("random-trees-and-alias-maps", MOD, "strategy", "check_case", 4000 if ctx.tier == "quick" else 80000)
